@@ -2,6 +2,7 @@ package checks
 
 import (
 	"fmt"
+	"strings"
 
 	"verif/internal/cases"
 	"verif/internal/irstrict"
@@ -48,8 +49,61 @@ func C09(c *run.Ctx) int {
 		}
 		return id, o
 	})
+	// many fixed-size array types over a few 4-byte element types: type-deduplication keys see many (element handle,
+	// length, stride) triples whose renderings are close to one another ((1,12) / (11,2), (3,4) / (34, ...))
+	nArr := c.N(120, 2000)
+	c.Each(nArr, func(i int) (string, run.Outcome) {
+		r := run.NewRng(run.CaseSeed(c.Seed, "c09-arrays", i))
+		id := fmt.Sprintf("arrays-%d", i)
+		var sb strings.Builder
+		elems := []string{"u32", "i32", "f32", "atomic<u32>", "atomic<i32>", "vec2<f32>", "vec4<u32>", "vec3<f32>"}
+		// a random prefix of struct / alias declarations moves the type handles around
+		for k, np := 0, r.Intn(10); k < np; k++ {
+			fmt.Fprintf(&sb, "struct P%d { a: %s, b: array<%s, %d>, }\n", k, []string{"u32", "f32", "vec2<i32>", "mat2x2<f32>"}[r.Intn(4)], []string{"u32", "f32"}[r.Intn(2)], r.Range(2, 40))
+		}
+		sb.WriteString("@group(0) @binding(0) var<storage, read_write> o: array<u32, 64>;\n")
+		nv := r.Range(6, 16)
+		var body []string
+		for k := 0; k < nv; k++ {
+			el := elems[r.Intn(len(elems))]
+			n := r.Range(1, 40)
+			if r.Chance(1, 3) {
+				n = []int{2, 3, 4, 11, 12, 13, 14, 21, 22, 23, 31, 32, 34, 41, 42}[r.Intn(15)]
+			}
+			space := "workgroup"
+			if !strings.HasPrefix(el, "atomic") && r.Bool() {
+				space = "private"
+			}
+			fmt.Fprintf(&sb, "var<%s> a%d: array<%s, %d>;\n", space, k, el, n)
+			ix := r.Intn(n)
+			switch {
+			case strings.HasPrefix(el, "atomic<u32>"):
+				body = append(body, fmt.Sprintf("o[%d] = atomicAdd(&a%d[%d], 1u);", k, k, ix))
+			case strings.HasPrefix(el, "atomic<i32>"):
+				body = append(body, fmt.Sprintf("o[%d] = u32(atomicAdd(&a%d[%d], 1i));", k, k, ix))
+			case el == "u32":
+				body = append(body, fmt.Sprintf("a%d[%d] = 7u; o[%d] = a%d[%d] + 1u;", k, ix, k, k, ix))
+			case el == "i32":
+				body = append(body, fmt.Sprintf("a%d[%d] = 7i; o[%d] = u32(a%d[%d] + 1i);", k, ix, k, k, ix))
+			case el == "f32":
+				body = append(body, fmt.Sprintf("a%d[%d] = 7.0f; o[%d] = u32(a%d[%d] + 1.0f);", k, ix, k, k, ix))
+			case el == "vec2<f32>":
+				body = append(body, fmt.Sprintf("a%d[%d] = vec2<f32>(1.0f, 2.0f); o[%d] = u32(a%d[%d].y);", k, ix, k, k, ix))
+			case el == "vec3<f32>":
+				body = append(body, fmt.Sprintf("a%d[%d] = vec3<f32>(1.0f, 2.0f, 3.0f); o[%d] = u32(a%d[%d].z);", k, ix, k, k, ix))
+			default:
+				body = append(body, fmt.Sprintf("a%d[%d] = vec4<u32>(1u, 2u, 3u, 4u); o[%d] = a%d[%d].w;", k, ix, k, k, ix))
+			}
+		}
+		fmt.Fprintf(&sb, "@compute @workgroup_size(1) fn main() {\n    %s\n}\n", strings.Join(body, "\n    "))
+		o := c09Eval(c, id, sb.String(), map[string]int{"template:arrays": 1, fmt.Sprintf("arrays:%d-variables", nv): 1}, false)
+		if o.V == run.Violated {
+			o.Reason = id + ": " + o.Reason
+		}
+		return id, o
+	})
 	return c.Finish("every module returned by LowerWithSource for generated programs and the corpus is checked by an independent strict IR validator (rules R1-R18: handle ranges, backward references, no abstract types, type uniqueness, recorded expression types vs an independent typifier, emit coverage and ordering, result binding, returns, store/call typing, control-flow placement, access typing, entry-point bindings, layout, plus naga's own ir.Validate); "+
-		"counters give per-rule evaluations and expression types compared by kind; distinct = distinct (feature set | corpus shader)",
+		"plus modules declaring 6-16 fixed-size array variables (lengths 1-40, scalar / atomic / vector elements) behind a random prefix of other types; counters give per-rule evaluations and expression types compared by kind; distinct = distinct (feature set | corpus shader)",
 		[]string{"irstrict's typifier is a second implementation of upstream naga's proc::typifier rules; it shares no code with ir.ResolveExpressionType"})
 }
 
